@@ -90,7 +90,13 @@ impl Xot {
     /// ```
     pub fn append(&mut self, parent: Node, child: Node) -> Result<(), Error> {
         self.add_structure_check(Some(parent), child)?;
-        self.remove_consolidate_text_nodes(self.previous_sibling(child), self.next_sibling(child));
+        if self.last_child(parent) == Some(child) {
+            // already the last child
+            return Ok(());
+        }
+        // take the node out of its old place first (consolidating text there),
+        // so that it cannot be mistaken for one of its new neighbors
+        self.detach(child)?;
         if self.add_consolidate_text_nodes(child, self.last_child(parent), None) {
             return Ok(());
         }
@@ -331,7 +337,11 @@ impl Xot {
     /// It is now the new first node of the parent.
     pub fn prepend(&mut self, parent: Node, child: Node) -> Result<(), Error> {
         self.add_structure_check(Some(parent), child)?;
-        self.remove_consolidate_text_nodes(self.previous_sibling(child), self.next_sibling(child));
+        if self.first_child(parent) == Some(child) {
+            // already the first child
+            return Ok(());
+        }
+        self.detach(child)?;
         if self.add_consolidate_text_nodes(child, None, self.first_child(parent)) {
             return Ok(());
         }
@@ -374,10 +384,19 @@ impl Xot {
     /// ```
     pub fn insert_after(&mut self, reference_node: Node, new_sibling: Node) -> Result<(), Error> {
         self.sibling_structure_check(reference_node, new_sibling)?;
-        self.remove_consolidate_text_nodes(
-            self.previous_sibling(new_sibling),
-            self.next_sibling(new_sibling),
-        );
+        if reference_node == new_sibling || self.next_sibling(reference_node) == Some(new_sibling) {
+            // already in place
+            return Ok(());
+        }
+        let previous_of_moved = self.previous_sibling(new_sibling);
+        self.detach(new_sibling)?;
+        // detaching can consolidate the reference node into the text node
+        // before the moved node; that text node then is the reference
+        let reference_node = if self.is_removed(reference_node) {
+            previous_of_moved.unwrap()
+        } else {
+            reference_node
+        };
         if self.add_consolidate_text_nodes(
             new_sibling,
             Some(reference_node),
@@ -394,10 +413,12 @@ impl Xot {
     /// Insert a new sibling before a reference node.
     pub fn insert_before(&mut self, reference_node: Node, new_sibling: Node) -> Result<(), Error> {
         self.sibling_structure_check(reference_node, new_sibling)?;
-        self.remove_consolidate_text_nodes(
-            self.previous_sibling(new_sibling),
-            self.next_sibling(new_sibling),
-        );
+        if reference_node == new_sibling || self.previous_sibling(reference_node) == Some(new_sibling)
+        {
+            // already in place
+            return Ok(());
+        }
+        self.detach(new_sibling)?;
         if self.add_consolidate_text_nodes(
             new_sibling,
             self.previous_sibling(reference_node),
